@@ -624,3 +624,6 @@ def run(rep, program: Program, tier: str) -> None:
     from . import c09
 
     rep.isolate(c09.rule_r7, rep, program, control=False, prop=PROP, rule="R7")
+    from . import samplersim
+
+    rep.isolate(samplersim.rule, rep, program, tier, PROP, "R8")
